@@ -16,7 +16,9 @@ import (
 	"github.com/sourcenetwork/immutable"
 
 	"github.com/sourcenetwork/defradb/client"
+	"github.com/sourcenetwork/defradb/client/request"
 	"github.com/sourcenetwork/defradb/errors"
+	"github.com/sourcenetwork/defradb/internal/connor"
 	"github.com/sourcenetwork/defradb/internal/core"
 	"github.com/sourcenetwork/defradb/internal/datastore"
 	"github.com/sourcenetwork/defradb/internal/db/id"
@@ -74,8 +76,16 @@ func newIndexFetcher(
 		indexField := mapper.Field{Index: typeIndex, Name: field.Name}
 		fieldsToCopy = append(fieldsToCopy, indexField)
 	}
+	// Only conditions that every matching document must satisfy may narrow down the index entries
+	// that are fetched. A condition inside an _or (or _not) branch is not one of them: copying it
+	// for one field on its own would turn it into such a condition and lose documents that match
+	// through another branch.
+	conjunctiveFilter := docFilter
+	if docFilter != nil {
+		conjunctiveFilter = &mapper.Filter{Conditions: conjunctiveConditions(docFilter.Conditions)}
+	}
 	for i := range fieldsToCopy {
-		f.indexFilter = filter.Merge(f.indexFilter, filter.CopyField(docFilter, fieldsToCopy[i]))
+		f.indexFilter = filter.Merge(f.indexFilter, filter.CopyField(conjunctiveFilter, fieldsToCopy[i]))
 	}
 
 	for _, indexedField := range f.indexDesc.Fields {
@@ -92,6 +102,36 @@ func newIndexFetcher(
 
 	f.indexIter = iter
 	return f, iter.Init(ctx, txn.Datastore())
+}
+
+// conjunctiveConditions returns the given conditions without their _or and _not branches, i.e.
+// the conditions that are combined by (implicit or explicit) _and only.
+func conjunctiveConditions(conditions map[connor.FilterKey]any) map[connor.FilterKey]any {
+	result := make(map[connor.FilterKey]any, len(conditions))
+	for key, value := range conditions {
+		if op, ok := key.(*mapper.Operator); ok {
+			switch op.Operation {
+			case request.FilterOpOr, request.FilterOpNot:
+				continue
+			case request.FilterOpAnd:
+				elements, _ := value.([]any)
+				conjunctiveElements := make([]any, 0, len(elements))
+				for _, element := range elements {
+					if elementMap, ok := element.(map[connor.FilterKey]any); ok {
+						if c := conjunctiveConditions(elementMap); len(c) > 0 {
+							conjunctiveElements = append(conjunctiveElements, c)
+						}
+					}
+				}
+				if len(conjunctiveElements) > 0 {
+					result[key] = conjunctiveElements
+				}
+				continue
+			}
+		}
+		result[key] = value
+	}
+	return result
 }
 
 func (f *indexFetcher) NextDoc() (immutable.Option[string], error) {
